@@ -83,4 +83,20 @@ PROPS = {
         "level_note": "Partial with respect to real concurrency: thread interleavings/memory effects cannot be exhibited by the Gallina model; covered by a compile-time Send+Sync assertion and a threaded differential run only. Otherwise trusted: Coq kernel + vm_compute, hand model tied by differential testing, crawdad modelled at list level.",
         "technique": "machine-checked proof in Coq (state-independence of reset+tokenize for all worker states, projection lemma for interleavings) + checked model/code correspondence on operation histories",
     },
+    "C13": {
+        "theorems": ["c13_counts_are_evaluations", "c13_history_additive", "c13_empty_sentence", "c13_probs_perm", "c13_probs_sorted", "c13_probs_accepted"],
+        "check_targets": ["Check/C13Check.vo"],
+        "case_type": "tokcase",
+        "report_fn": "c13_report",
+        "n": {"quick": 700, "thorough": 15000},
+        "rule": TOK_RULE + "; C13: every case counts (init_connid_counter, update_connid_counts after every sentence incl. empty and repeated lines), then compute_connid_probs and map_connection_ids_from_iter of its output on a rebuilt dictionary followed by re-tokenization; non-trivial: at least two left ids with a non-zero count (so the order is decided by frequencies)",
+        "trusted_base": TOK_TRUSTED + [
+            "binary64 quotients count/sum are modelled by the order on counts (division by one positive float is monotone and separates integers below 2^53; sum = 0 gives NaN everywhere = all equal): not proved in Coq, exercised by the correspondence (the real order must equal the model's order on the observed counts)",
+            "sort_unstable_by modelled by insertion sort (the comparator is a total order on distinct ids, so the sorted result is unique)",
+        ],
+        "assumptions": ["at most 65535 connection ids per side (u16)"],
+        "level_text": "Coq theorems: c13_counts_are_evaluations (what add_connid_counts counts over the finished lattice is, as a multiset, exactly the connection-cost evaluations of the run: invariant over the whole scan, using the Viterbi frontier invariant to show earlier boundaries are final), c13_history_additive / c13_empty_sentence (a sentence's contribution does not depend on the worker's past; the empty sentence adds nothing), c13_probs_perm / c13_probs_sorted (the output lists every id but 0 exactly once by count desc, id asc) and c13_probs_accepted (ConnIdMapper::parse accepts it: parse accepts exactly the permutations of 1..n, mapper_parse_accepts_iff). Tied to the code on every run: real counters after every sentence of generated histories vs the model, real compute_connid_probs order vs the model's order, and the oracle recounts evaluations from the implementation's own lattice dumps, checks permutation/sortedness, acceptance by map_connection_ids_from_iter and identical re-tokenization.",
+        "level_note": "Trusted: Coq kernel + vm_compute; float quotient order modelled on counts (not proved); hand model tied by differential testing; the 'mapped dictionary tokenizes identically' part is C06's theorem, here only observed on the implementation.",
+        "technique": "machine-checked proof in Coq (scan invariant relating evaluation log and counted events; permutation characterisation of ConnIdMapper::parse; sortedness of the statistics) + checked model/code correspondence",
+    },
 }
